@@ -145,6 +145,13 @@ var properties = map[string]Prop{
 		Rule:        "12 operations taking an ActorRef {Tell, Ask+Reply, Kill, poison Kill, Watch then target dies, Watch+Unwatch then target dies, Ping, PipeTo success, PipeTo failure (timeout), PipeTo with a forwarder on the other system, Scheduler.Once, Scheduler.Loop} x target {local, on another System over the in-memory network} x {user Codec with a message type outside the registry, no codec with a registered type}; each of the 48 scenarios over all schedules up to the delay bound with switch points at messages, sends and network operations; oracle: the same expected observable effect for the local and the remote variant (delivery, reply, termination + OnKill.Killer, OnKilled naming the target with its address, Pong, PipeResult at the forwarder, scheduled deliveries) and no decode/send failure event; distinct_nontrivial = distinct effect vectors per scenario",
 		Assumptions: append([]string{"event-stream subscriptions are local by design and not part of the matrix", coarseAssumption}, schedAssumptions...),
 	},
+	"C18": {
+		Parts:       []Part{{Harness: "c18"}},
+		Level:       "model_checking",
+		QuickBudget: 250, ThoroughBudget: 2400,
+		Rule:        "n = 2-3 (4 thorough) real Systems with clustering enabled over the in-memory network on virtual time, real gossip / join / failure-detection code and wire codec: seed layouts {one seed, two seeds}, start offsets {0, 0.3 s, 0.7 s} in several orders, FailureDetectionTimeout {4 s, default 40 s, off}, SuspectConfirmDuration {0, 2 s}; fault phase: crash (isolation) of a non-seed node, restart with the same / a fresh NodeID, partition and heal of a pair; healing phase of max(20 gossip rounds, 5 x timeout) of virtual time; oracle at the horizon: equal member sets and incarnations, same computed leader, exactly one self-declared leader, members == running nodes, no membership/leader event in the last third of the healing phase; executions are deterministic runs of the whole protocol stack (default fair schedule per scenario; deviations in thorough); distinct_nontrivial = distinct final view vectors",
+		Assumptions: append([]string{"reconnect limit 1 with 100-200 ms back-off (instead of 10 attempts up to 10 s) so that Tell to a dead node does not stall the cluster actor for minutes of virtual time", "cluster sizes 5-7 and message loss inside a TCP stream are not covered", coarseAssumption}, schedAssumptions...),
+	},
 	"C05": {
 		Parts:       []Part{{Harness: "c05"}},
 		Level:       "model_checking",
